@@ -1288,12 +1288,12 @@ impl<'a, 'b, W: Write> Serializer for &'a mut YamlSerializer<'b, W> {
             }
             NAME_SPACE_AFTER => {
                 // Serialize the value, then emit an empty line after (only in block style).
-                let result = value.serialize(&mut *self);
+                let result = value.serialize(&mut *self)?;
                 if self.in_flow == 0 {
                     // Emit an extra blank line after the value
                     self.newline()?;
                 }
-                return result;
+                return Ok(result);
             }
             _ => {}
         }
